@@ -30,11 +30,12 @@ struct Case
   double ap1 = 0, ap2 = -1; // radians; ap2 < 0 : circular
   uint64_t opseed = 0;
   uint64_t prior = 0;       // != 0: the op object was configured before with the case gen_case(prior) (and not reset): re-configuration must behave like a fresh op
+  uint64_t prior_ev = 0;    // != 0: the SAME op object processed 1-3 other events (other layouts) before this one: it must behave like a fresh op on this event
   std::string json() const
   {
     char b[600];
-    snprintf(b, sizeof b, "{\"synthetic\":%s,\"kind\":\"%s\",\"name\":\"%s\",\"level\":%d,\"mode\":%d,\"evseed\":\"%llu\",\"ep\":%d,\"code\":%d,\"rank\":%d,\"err_missing\":%s,\"phi\":\"%a\",\"theta\":\"%a\",\"axis_scale\":\"%a\",\"ap1\":\"%a\",\"ap2\":\"%a\",\"opseed\":\"%llu\",\"prior\":\"%llu\"}",
-             synthetic ? "true" : "false", kind.c_str(), name.c_str(), level, mode, (unsigned long long)evseed, ep, code, rank, err_missing ? "true" : "false", phi, theta, axis_scale, ap1, ap2, (unsigned long long)opseed);
+    snprintf(b, sizeof b, "{\"synthetic\":%s,\"kind\":\"%s\",\"name\":\"%s\",\"level\":%d,\"mode\":%d,\"evseed\":\"%llu\",\"ep\":%d,\"code\":%d,\"rank\":%d,\"err_missing\":%s,\"phi\":\"%a\",\"theta\":\"%a\",\"axis_scale\":\"%a\",\"ap1\":\"%a\",\"ap2\":\"%a\",\"opseed\":\"%llu\",\"prior\":\"%llu\",\"prior_ev\":\"%llu\"}",
+             synthetic ? "true" : "false", kind.c_str(), name.c_str(), level, mode, (unsigned long long)evseed, ep, code, rank, err_missing ? "true" : "false", phi, theta, axis_scale, ap1, ap2, (unsigned long long)opseed, (unsigned long long)prior, (unsigned long long)prior_ev);
     return b;
   }
   static Case from(const JV & j)
@@ -42,7 +43,7 @@ struct Case
     Case c; c.synthetic = j.at("synthetic").b; c.kind = j.s("kind"); c.name = j.s("name"); c.level = (int)j.n("level", 0); c.mode = (int)j.n("mode", 0);
     c.evseed = strtoull(j.s("evseed").c_str(), nullptr, 10); c.ep = (int)j.n("ep", 0); c.code = (int)j.n("code", 0); c.rank = (int)j.n("rank", -1); c.err_missing = j.at("err_missing").b;
     c.phi = strtod(j.s("phi").c_str(), nullptr); c.theta = strtod(j.s("theta").c_str(), nullptr); c.axis_scale = strtod(j.s("axis_scale").c_str(), nullptr);
-    c.ap1 = strtod(j.s("ap1").c_str(), nullptr); c.ap2 = strtod(j.s("ap2").c_str(), nullptr); c.opseed = strtoull(j.s("opseed").c_str(), nullptr, 10); c.prior = strtoull(j.s("prior", "0").c_str(), nullptr, 10);
+    c.ap1 = strtod(j.s("ap1").c_str(), nullptr); c.ap2 = strtod(j.s("ap2").c_str(), nullptr); c.opseed = strtoull(j.s("opseed").c_str(), nullptr, 10); c.prior = strtoull(j.s("prior", "0").c_str(), nullptr, 10); c.prior_ev = strtoull(j.s("prior_ev", "0").c_str(), nullptr, 10);
     c.derive(); return c;
   }
   void derive() { ax = axis_scale * std::cos(phi) * std::sin(theta); ay = axis_scale * std::sin(phi) * std::sin(theta); az = axis_scale * std::cos(theta); }
@@ -123,6 +124,9 @@ static Res check_case(const Case & c)
   std::shared_ptr<MDL> op(new MDL);
   try { setup_op_hist(*op, c); } catch (std::exception & e) { r.skipped = true; r.msg = e.what(); return r; }
   bxdecay0::event e1;
+  if (c.synthetic && c.prior_ev) { // earlier events through the same op object (their outcome is not judged here)
+    for (int k = 0; k < 1 + (int)(c.prior_ev % 3); k++) { bxdecay0::event pe; synth_event(pe, c.prior_ev + 7 * k); Tape pt; pt.seed = c.prior_ev ^ (0x9e + k); TapeRandom pr(pt, 0, LIM); try { (*op)(pr, pe); } catch (std::exception &) {} }
+  }
   if (c.synthetic) {
     synth_event(e0, c.evseed); e1 = e0;
     TapeRandom rr(tape, 0, LIM);
@@ -135,6 +139,7 @@ static Res check_case(const Case & c)
     conf(g0); conf(g1); g1.add_operation(op);
     TapeRandom ri0(it0, 0, LIM), ri1(it1, 0, LIM); g0.initialize(ri0); g1.initialize(ri1);
     if (ri0.pos != ri1.pos) return fail("init-consumes", "initialisation consumes a different number of deviates with the operation registered");
+    if (c.prior_ev) for (int k = 0; k < 1 + (int)(c.prior_ev % 3); k++) { bxdecay0::event pe; Tape pt; pt.seed = c.prior_ev ^ (0x9e + k); TapeRandom pr(pt, 0, LIM); try { g1.shoot(pr, pe); } catch (std::exception &) {} }
     TapeRandom r0(tape, 0, LIM); g0.shoot(r0, e0); pos_after = r0.pos;
     TapeRandom r1(tape, 0, LIM); bool threw = false; std::string what;
     try { g1.shoot(r1, e1); } catch (TapeOverrun &) { return fail("unbounded", "shot with operation consumed more than " + std::to_string(LIM) + " deviates"); } catch (std::exception & e) { threw = true; what = e.what(); }
@@ -270,6 +275,7 @@ static Case gen_case(uint64_t h)
   if (rect) { c.ap1 = r.uniform(0.01, M_PI / 2 - 0.01); c.ap2 = r.uniform(0.01, M_PI / 2 - 0.01); if (r.chance(0.3)) c.ap2 = c.ap1 * r.uniform(0.05, 0.5); }
   else { int k = r.range(0, 5); c.ap1 = k == 0 ? 0.0 : (k == 1 ? M_PI * (1 - std::pow(10.0, r.uniform(-9, -2))) : (k == 2 ? std::pow(10.0, r.uniform(-9, -1)) : r.uniform(0, M_PI * 0.999))); c.ap2 = -1; }
   if (r.chance(0.35)) c.prior = 1 + r.next() % 1000000007ULL;
+  if (r.chance(0.4)) c.prior_ev = 1 + r.next() % 1000000007ULL;
   c.derive();
   return c;
 }
@@ -279,7 +285,8 @@ int main(int argc, char ** argv)
   Args a(argc, argv);
   Report rep; rep.prop = "C10"; Known known; if (a.has("known")) known.load(a.s("known"));
   std::string replaydir = a.s("replaydir", "replay");
-  int out_fd = dup(1); silence_stdio(true, true); // the op prints every momentum on stderr in target mode
+  bool crumbs = a.has("breadcrumb"); std::string curfile = a.s("out", "report.json") + ".cur";
+  int out_fd = dup(1); silence_stdio(true, !crumbs); // the op prints every momentum on std::cerr in target mode (muted below); a sanitizer run keeps fd 2 for the report
   static std::ofstream devnull("/dev/null"); std::cerr.rdbuf(devnull.rdbuf()); std::clog.rdbuf(devnull.rdbuf());
   FILE * res = fdopen(out_fd, "w");
   if (a.has("replay")) {
@@ -292,6 +299,10 @@ int main(int argc, char ** argv)
     for (long long k = shard; k < cases; k += nsh) {
       Case c = gen_case(mix(mix(seed, 0xC10), k));
       bool meta = (k % 5 == 0);
+      if (crumbs) { // written before the case runs, so that a sanitizer abort leaves the reproducer behind
+        FILE * f = fopen(curfile.c_str(), "w");
+        if (f) { std::string js = "{\"property\":\"C08\",\"driver\":\"mdlcheck\",\"cfgsig\":\"mdl:ep" + std::to_string(c.ep) + ":" + (c.synthetic ? std::string("synthetic") : c.name) + ":rank" + std::to_string(std::min(c.rank, 1)) + "\",\"case\":" + c.json() + (meta ? ",\"metamorphic\":true" : "") + "}\n"; fwrite(js.data(), 1, js.size(), f); fclose(f); }
+      }
       Res r = meta ? check_degree_vs_radian(c) : check_case(c);
       rep.evaluations++;
       if (r.skipped) { rep.count("refused_by_entry_point"); continue; }
